@@ -7,6 +7,7 @@
 -/
 import MantraDex.Model.System
 import MantraDex.Proofs.NumLemmas
+import MantraDex.Proofs.PoolLemmas
 
 set_option linter.unusedSimpArgs false
 
@@ -22,24 +23,78 @@ theorem ownership_moves_only_by_accept_or_renounce {o o' : Ownership} {v : Addr 
     (a = .accept ∧ o.pending = some sender ∧ o'.owner = some sender ∧
         (∀ e, o.pendingExpiry = some e → now < e)) ∨
     (a = .renounce ∧ o.owner = some sender ∧ o'.owner = none) := by
-  sorry
+  cases a with
+  | transfer n e =>
+    exfalso
+    simp only [Ownership.update, bind_ok, assertOwner_ok] at h
+    obtain ⟨_, _, h⟩ := h
+    split at h
+    · simp at h
+    · simp only [pure_ok] at h; subst h; exact hne rfl
+  | accept =>
+    left
+    simp only [Ownership.update] at h
+    split at h
+    · simp at h
+    · next p hp =>
+      split at h
+      · simp at h
+      · next hps =>
+        have hps : p = sender := by simpa using hps
+        subst hps
+        split at h
+        · next e he =>
+          split at h
+          · simp at h
+          · next hlt =>
+            simp only [pure_ok] at h; subst h
+            refine ⟨rfl, hp, rfl, ?_⟩
+            intro e' he'; rw [he] at he'; cases he'; omega
+        · next he =>
+          simp only [pure_ok] at h; subst h
+          refine ⟨rfl, hp, rfl, ?_⟩
+          intro e' he'; rw [he] at he'; cases he'
+  | renounce =>
+    right
+    simp only [Ownership.update, bind_ok, assertOwner_ok, pure_ok] at h
+    obtain ⟨_, ho, rfl⟩ := h
+    exact ⟨rfl, ho, rfl⟩
 
 /-- only the current owner can propose a transfer or renounce -/
 theorem transfer_and_renounce_require_owner {o o' : Ownership} {v : Addr → Bool} {now : Nat}
     {sender : Addr} {a : OwnAction} (h : o.update v now sender a = .ok o') (ha : a ≠ .accept) :
     o.owner = some sender := by
-  sorry
+  cases a with
+  | transfer n e =>
+    simp only [Ownership.update, bind_ok, assertOwner_ok] at h
+    obtain ⟨_, ho, _⟩ := h; exact ho
+  | accept => exact absurd rfl ha
+  | renounce =>
+    simp only [Ownership.update, bind_ok, assertOwner_ok] at h
+    obtain ⟨_, ho, _⟩ := h; exact ho
 
 /-- a renounced contract has no way back: every ownership action fails -/
 theorem renounced_is_final {o : Ownership} {v : Addr → Bool} {now : Nat} {sender : Addr}
     {a : OwnAction} (ho : o.owner = none) (hp : o.pending = none) :
     ∀ o', o.update v now sender a ≠ .ok o' := by
-  sorry
+  intro o' h
+  cases a with
+  | transfer n e =>
+    simp only [Ownership.update, bind_ok, assertOwner_ok] at h
+    obtain ⟨_, ho', _⟩ := h; rw [ho] at ho'; cases ho'
+  | accept =>
+    simp only [Ownership.update, hp] at h
+    cases h
+  | renounce =>
+    simp only [Ownership.update, bind_ok, assertOwner_ok] at h
+    obtain ⟨_, ho', _⟩ := h; rw [ho] at ho'; cases ho'
 
 /-- renouncing clears the pending transfer too, so the state above is what renounce produces -/
 theorem renounce_result {o o' : Ownership} {v : Addr → Bool} {now : Nat} {sender : Addr}
     (h : o.update v now sender .renounce = .ok o') : o'.owner = none ∧ o'.pending = none := by
-  sorry
+  simp only [Ownership.update, bind_ok, assertOwner_ok, pure_ok] at h
+  obtain ⟨_, _, rfl⟩ := h
+  exact ⟨rfl, rfl⟩
 
 /-! ### pool manager -/
 
@@ -47,12 +102,20 @@ theorem pm_update_config_requires_owner {s : PmState} {env : PmEnv} {sender : Ad
     {funds : List Coin} {fc fm : Option Addr} {fee : Option Coin} {t : Option FeatureToggle}
     (hno : s.owner.owner ≠ some sender) :
     ∀ r, pmExecute s env sender funds (.updateConfig fc fm fee t) ≠ .ok r := by
-  sorry
+  intro r h
+  simp only [pmExecute, pmUpdateConfig, bind_ok, assertOwner_ok] at h
+  obtain ⟨_, _, _, ho, _⟩ := h
+  exact hno ho
 
 theorem pm_privileged_nonpayable {s : PmState} {env : PmEnv} {sender : Addr} {funds : List Coin}
     {m : PmMsg} (hm : (∃ fc fm fee t, m = .updateConfig fc fm fee t) ∨ (∃ a, m = .updateOwnership a))
     (hf : funds ≠ []) : ∀ r, pmExecute s env sender funds m ≠ .ok r := by
-  sorry
+  intro r h
+  rcases hm with ⟨fc, fm, fee, t, rfl⟩ | ⟨a, rfl⟩
+  · simp only [pmExecute, bind_ok, nonpayable_ok] at h
+    obtain ⟨_, hf', _⟩ := h; exact hf hf'
+  · simp only [pmExecute, bind_ok, nonpayable_ok] at h
+    obtain ⟨_, hf', _⟩ := h; exact hf hf'
 
 /-- non-privileged pool-manager messages never change config or ownership -/
 theorem pm_config_changes_only_by_privileged {s s' : PmState} {env : PmEnv} {sender : Addr}
@@ -60,60 +123,103 @@ theorem pm_config_changes_only_by_privileged {s s' : PmState} {env : PmEnv} {sen
     (h : pmExecute s env sender funds m = .ok (s', r))
     (hm : ¬ (∃ fc fm fee t, m = .updateConfig fc fm fee t) ∧ ¬ (∃ a, m = .updateOwnership a)) :
     s'.config = s.config ∧ s'.owner = s.owner := by
-  sorry
+  rcases pmExecute_cases h with hs | ⟨d, dc, f, pt, id, rfl, hc⟩ | ⟨_, _, hpriv, _, _⟩ | ⟨_, hpriv, _⟩
+  · exact hs.config_owner
+  · obtain ⟨_, _, _, hcfg, hown, _⟩ := createPool_pools hc
+    exact ⟨hcfg, hown⟩
+  · exact absurd hpriv hm.1
+  · exact absurd hpriv hm.2
 
 /-! ### farm manager -/
 
 theorem fm_update_config_requires_owner {s : FmState} {env : FmEnv} {sender : Addr}
     {funds : List Coin} {u : FmConfigUpdate} (hno : s.owner.owner ≠ some sender) :
     ∀ r, fmExecute s env sender funds (.updateConfig u) ≠ .ok r := by
-  sorry
+  intro r h
+  simp only [fmExecute, fmUpdateConfig, bind_ok, assertOwner_ok] at h
+  obtain ⟨_, _, _, ho, _⟩ := h
+  exact hno ho
 
 theorem fm_privileged_nonpayable {s : FmState} {env : FmEnv} {sender : Addr} {funds : List Coin}
     {m : FmMsg} (hm : (∃ u, m = .updateConfig u) ∨ (∃ a, m = .updateOwnership a)) (hf : funds ≠ []) :
     ∀ r, fmExecute s env sender funds m ≠ .ok r := by
-  sorry
+  intro r h
+  rcases hm with ⟨u, rfl⟩ | ⟨a, rfl⟩
+  · simp only [fmExecute, bind_ok, nonpayable_ok] at h
+    obtain ⟨_, hf', _⟩ := h; exact hf hf'
+  · simp only [fmExecute, bind_ok, nonpayable_ok] at h
+    obtain ⟨_, hf', _⟩ := h; exact hf hf'
 
 /-- farm expansion is reserved to the farm's owner -/
 theorem expand_farm_requires_farm_owner {s : FmState} {env : FmEnv} {sender : Addr}
     {funds : List Coin} {p : FarmParams} {fid : String} {f : Farm}
     (hid : p.farmId = some fid) (hf : s.getFarm fid = .ok f) (hno : f.owner ≠ sender) :
     ∀ r, expandFarm s env sender funds p ≠ .ok r := by
-  sorry
+  intro r h
+  unfold expandFarm at h
+  rw [hid] at h
+  simp only [↓err_bind, bind_ok, pure_ok, ite_err_ok] at h
+  obtain ⟨_, rfl, f', hf', hchk, _⟩ := h
+  rw [hf] at hf'; cases hf'
+  simp [hno] at hchk
 
 /-- farm closing is reserved to the farm's owner or the contract owner -/
 theorem close_farm_requires_farm_or_contract_owner {s : FmState} {sender : Addr} {funds : List Coin}
     {fid : String} {f : Farm} (hf : s.getFarm fid = .ok f) (hno : f.owner ≠ sender)
     (hnc : s.owner.owner ≠ some sender) : ∀ r, closeFarm s sender funds fid ≠ .ok r := by
-  sorry
+  intro r h
+  unfold closeFarm at h
+  simp only [↓err_bind, bind_ok, pure_ok, ite_err_ok] at h
+  obtain ⟨_, _, f', hf', hchk, _⟩ := h
+  rw [hf] at hf'; cases hf'
+  simp [hno, hnc] at hchk
 
 /-- only a position's owner can close it -/
 theorem close_position_requires_owner {s : FmState} {env : FmEnv} {sender : Addr} {funds : List Coin}
     {id : String} {lp : Option Coin} {p : Position}
     (hp : s.getPosition id = some p) (hno : p.receiver ≠ sender) :
     ∀ r, closePosition s env sender funds id lp ≠ .ok r := by
-  sorry
+  intro r h
+  unfold closePosition at h
+  rw [hp] at h
+  simp only [↓err_bind, bind_ok, pure_ok, ite_err_ok] at h
+  obtain ⟨_, _, _, _, _, _, rfl, hchk, _⟩ := h
+  simp [hno] at hchk
 
 /-- … or withdraw it (normal or emergency) -/
 theorem withdraw_position_requires_owner {s : FmState} {env : FmEnv} {sender : Addr}
     {funds : List Coin} {id : String} {em : Option Bool} {p : Position}
     (hp : s.getPosition id = some p) (hno : p.receiver ≠ sender) :
     ∀ r, withdrawPosition s env sender funds id em ≠ .ok r := by
-  sorry
+  intro r h
+  unfold withdrawPosition at h
+  rw [hp] at h
+  simp only [↓err_bind, bind_ok, pure_ok, ite_err_ok] at h
+  obtain ⟨_, _, _, rfl, hchk, _⟩ := h
+  simp [hno] at hchk
 
 /-- only the owner or the pool manager can add to a position -/
 theorem expand_position_requires_owner_or_pm {s : FmState} {env : FmEnv} {sender : Addr}
     {funds : List Coin} {id : String} {p : Position}
     (hp : s.getPosition id = some p) (hno : p.receiver ≠ sender) (hpm : sender ≠ s.config.poolManager) :
     ∀ r, expandPosition s env sender funds id ≠ .ok r := by
-  sorry
+  intro r h
+  unfold expandPosition at h
+  rw [hp] at h
+  simp only [↓err_bind, bind_ok, pure_ok, ite_err_ok] at h
+  obtain ⟨_, rfl, _, _, _, _, _, hchk, _⟩ := h
+  simp [hno, hpm] at hchk
 
 /-- a position can be created for someone else only by the pool manager -/
 theorem create_for_other_requires_pm {s : FmState} {env : FmEnv} {sender recv : Addr}
     {funds : List Coin} {id : Option String} {u : Nat}
     (hne : recv ≠ sender) (hpm : sender ≠ s.config.poolManager) :
     ∀ r, createPosition s env sender funds id u (some recv) ≠ .ok r := by
-  sorry
+  intro r h
+  unfold createPosition at h
+  simp only [↓err_bind, bind_ok, pure_ok, ite_err_ok] at h
+  obtain ⟨_, _, _, _, _, hchk, _⟩ := h
+  simp [hpm, Ne.symm hne] at hchk
 
 /-! ### epoch manager, fee collector -/
 
@@ -121,12 +227,19 @@ theorem em_privileged_requires_owner_and_no_funds {s s' : EmState} {v : Addr →
     {sender : Addr} {funds : List Coin} {cfg : Option EpochConfig}
     (h : emExecute s v now sender funds (.updateConfig cfg) = .ok s') :
     funds = [] ∧ s.owner.owner = some sender := by
-  sorry
+  simp only [emExecute, bind_ok, nonpayable_ok, assertOwner_ok] at h
+  obtain ⟨_, hf, _, ho, _⟩ := h
+  exact ⟨hf, ho⟩
 
 theorem fc_only_ownership_no_funds {w w' : World} {sender : Addr} {funds : List Coin}
     {a : OwnAction} {r : Response}
     (h : callExecute w FC sender funds (.fc (.updateOwnership a)) = .ok (w', r)) :
     funds = [] ∧ r.msgs = [] ∧ w'.pm.pools = w.pm.pools ∧ w'.bank.bal = w.bank.bal := by
-  sorry
+  unfold callExecute at h
+  simp only [bne_self_eq_false, Bool.false_eq_true, if_false, bind_ok, nonpayable_ok, pure_ok] at h
+  obtain ⟨_, hf, o, _, h⟩ := h
+  simp only [Prod.mk.injEq] at h
+  obtain ⟨rfl, rfl⟩ := h
+  exact ⟨hf, rfl, rfl, rfl⟩
 
 end MantraDex.C15
